@@ -396,4 +396,85 @@ extern "C" void h_start() {
     vf_choice_end();
     vf_witness();
 }
+
+// Unit h_start_mt: the scheduling thread against another thread that schedules a sleep (thread / pool mode reduced to two parties): the worker loop of
+// start(awaitable) runs under the virtual clock with one local sleeper (deadline D); the complete sleep_until(e) of another thread is placed
+//   place 0: in front of the k-th acquisition of the scheduler mutex made by the scheduling thread (vf_inject_arm), k = 1..K
+//   place 1: while the scheduling thread sits in its timed wait (vf_cwait_arm): schedule() must wake it when the new entry is the earliest
+// The late sleep is observed through a callback awaiter that records the virtual time of its resolution.
+namespace {
+struct LateCb : awaiter {
+    long woke = -1; int cnt = 0; int how = W_NONE;
+    future<void> *f = nullptr; promise<void> done;
+    static suspend_point<void> fn(awaiter *a, void *) noexcept {
+        LateCb *self = static_cast<LateCb *>(a);
+        self->woke = vf_clock_now(); self->cnt++;
+        try { self->f->value(); self->how = W_EXPIRED; } catch (const await_canceled_exception &) { self->how = W_CANCELED; } catch (...) { self->how = W_OTHER; }
+        return self->done();
+    }
+    LateCb() { set_resume_fn(&fn); }
+};
+struct MtCtx {
+    scheduler *sch = nullptr;
+    int D = 0, e = 0;
+    long woke_local = -1; int how_local = W_NONE;
+    int scheduled = 0; long inj_clk = -1;
+    int main_done = 0, after_main = 0;   // the other thread may come when the awaitable has already finished: its sleep is then cancelled by the scheduler's destruction
+    future<void> late, late_done;
+    LateCb cb;
+};
+MtCtx *mt;
+void other_thread_schedules() {
+    MtCtx &c = *mt;
+    c.scheduled = 1; c.inj_clk = vf_clock_now(); c.after_main = c.main_done;
+    c.late << [&] { return c.sch->sleep_until(TP(c.e), ID(2)); };
+    c.cb.f = &c.late;
+    if (!co_awaiter<future<void>>(c.late).subscribe(&c.cb)) LateCb::fn(&c.cb, nullptr);
+}
+async<void> local_sleeper(MtCtx &c) {
+    try { co_await c.sch->sleep_until(TP(c.D), ID(0)); c.how_local = W_EXPIRED; } catch (...) { c.how_local = W_OTHER; }
+    c.woke_local = vf_clock_now();
+}
+future<int> mainco_mt(MtCtx &c) {
+    if (c.D) { future<void> f; f << [&] { return local_sleeper(c).start(); }; co_await f; }
+    else co_await c.late_done;            // (place 1 only: the heap is empty until the other thread schedules)
+    if (c.scheduled && c.cb.cnt == 0) co_await c.late_done;
+    c.main_done = 1;
+    co_return 42;
+}
+}
+extern "C" void h_start_mt() {
+    vf_warmup();
+    MtCtx c; mt = &c;
+    const int place = vf_choice(2);
+    c.D = 4 * vf_choice(3);               // 0 = no local sleeper (place 1 only), 4, 8
+    c.e = 2 + 2 * vf_choice(5);           // 2, 4, 6, 8, 10
+    const int k = 1 + vf_choice(8);
+    vf_clock_set(1);
+    long base = vf_live_allocs();
+    {
+        scheduler sch; c.sch = &sch;
+        c.late_done << [&] { return future<void>([&](promise<void> p) { c.cb.done = std::move(p); }); };
+        if (place == 0) vf_inject_arm(&other_thread_schedules, k); else vf_cwait_arm(&other_thread_schedules);
+        int r = sch.start(mainco_mt(c));
+        VF_ASSERT(r == 42, "C12 start(awaitable) returns the awaitable's value");
+        if (place == 0) vf_inject_disarm(); else vf_cwait_disarm();
+        if (c.D) {
+            VF_ASSERT(c.how_local == W_EXPIRED && c.woke_local >= c.D, "C12 a sleep never completes before its time point (virtual clock)");
+            VF_ASSERT(c.woke_local == c.D, "C12 an otherwise idle scheduling thread wakes a sleeper at its time point, not later (virtual clock)");
+        }
+        if (c.scheduled && !c.after_main) {
+            VF_ASSERT(c.cb.cnt == 1 && c.cb.how == W_EXPIRED, "C12 a sleep scheduled from another thread completes exactly once");
+            VF_ASSERT(c.cb.woke >= c.e, "C12 a sleep never completes before its time point (virtual clock)");
+            VF_ASSERT(c.cb.woke == (c.e > c.inj_clk ? c.e : c.inj_clk),
+                      "C12 a sleep scheduled from another thread is woken at its time point although the scheduling thread had already decided to wait for a later one");
+        }
+        vf_out(c.scheduled); vf_out(c.cb.woke); vf_out(c.woke_local);
+        if (!c.scheduled) c.cb.done(drop);
+    }
+    if (c.after_main) VF_ASSERT(c.cb.cnt == 1 && c.cb.how == W_CANCELED, "C12 sleeps still pending when the scheduler is destroyed are cancelled rather than left hanging");
+    VF_ASSERT(vf_live_allocs() == base, "C12 nothing leaked");
+    vf_choice_end();
+    vf_witness();
+}
 #endif
